@@ -39,7 +39,24 @@ def pkg_cases(draw, max_classes: int = 7, leaf_only_instance_attrs: bool = False
     # ... nor across two packages that are loaded one after the other (wildcard expansion is the loader's business)
     if hist_kind == "late" and max(mods) == 0:
         hist_kind = ""
-    cross_forms = [f for f in H.FORMS_CROSS if f != "w" or (resolve and not cyclic and hist_kind != "late")]
+    # two distributions: the first `split` modules are a library of their own - a package ("lib"), a package / top-level
+    # modules whose names repeat names used inside PKG ("twin-pkg": `pkg.m2` next to `c07pkg.m2`; "twin-top": `m2` next to
+    # `c07pkg.m2`), classes of PKG then take the names of library classes (`c07pkg.m2.C0(m2.C0)`)
+    layout = draw(st.sampled_from(("", "", "lib", "twin-pkg", "twin-top"))) if max(mods) else ""
+    if hist_kind == "late" and not layout:
+        layout = "lib"
+    lib = None
+    if layout:
+        split = draw(st.integers(1, max(mods)))
+        napp = max(mods) + 1 - split
+        if layout == "lib":
+            modnames = [f"m{a}" for a in range(split)]
+        else:
+            modnames = [f"m{split + a}" if a < napp else f"m{a}" for a in range(split)]
+        lib = {"split": split, "style": "top" if layout == "twin-top" else "pkg", "name": "pkg" if layout == "twin-pkg" else H.LIB, "modnames": modnames}
+    # no wildcard form across distributions: with repeated names `from m2 import *` + `class C0(C0)` is the documented
+    # same-name limitation, and in a "late" history wildcard expansion is the loader's business
+    cross_forms = [f for f in H.FORMS_CROSS if f != "w" or (resolve and not cyclic and not layout)]
     cgi = [gen_mode == "cgi" and draw(st.integers(0, 2)) == 0 for _ in range(n)]
     bases: list[list] = []
     via: list[list[str]] = []
@@ -98,8 +115,22 @@ def pkg_cases(draw, max_classes: int = 7, leaf_only_instance_attrs: bool = False
         case["sub"] = sub
     if leaf_only_instance_attrs and init != H.init_from_bits(spread, members, bases, leaf_only=False):
         case["ia_steered"] = True
+    if lib:
+        case["lib"] = lib
+        if layout.startswith("twin"):
+            names = [f"C{i}" for i in range(n)]
+            for i in range(n):
+                if mods[i] < lib["split"] or host[i] is not None:
+                    continue
+                cands = [b for b in range(n) if mods[b] < lib["split"] and host[b] is None and lib["modnames"][mods[b]] == f"m{mods[i]}"]
+                cands = [b for b in cands if names[b] not in {names[k] for k in range(n) if k != i and mods[k] == mods[i]}]
+                preferred = [b for b in cands if b in anc[i]] or cands
+                if preferred and draw(st.integers(0, 3)):
+                    names[i] = names[draw(st.sampled_from(preferred))]
+            if names != [f"C{i}" for i in range(n)]:
+                case["clsnames"] = names
     if hist_kind == "late":
-        case["history"] = {"type": "late", "split": draw(st.integers(1, max(mods)))}
+        case["history"] = {"type": "late"}
     elif hist_kind == "replace":
         j = draw(st.integers(0, n - 1))
         # new bases: earlier classes without instance attribute (the replacement must not create the known-finding shape)
